@@ -380,6 +380,42 @@ func VerifC07Move(h *verifrt.H) {
 	h.Cover("end")
 }
 
+// VerifC12Budget: ONE cap-bearing expired-patch batch on a swamp whose three expired records
+// each match the cap filter already or not (by choice), in any expiry order relative to their
+// status, with a symbolic cap (1..2) and HowMany (1..3): if the matches were within the cap
+// before, they are within the cap afterwards, whatever the batch moved into the filter.
+func VerifC12Budget(h *verifrt.H) {
+	h.BackgroundLowPriority(true)
+	s := vfMem(h, nil)
+	matches := func(t treasure.Treasure) bool {
+		raw, err := t.GetContentByteArray()
+		return err == nil && len(raw) == 7 && raw[6] == 'd'
+	}
+	keys := []string{"a", "b", "c"}
+	before := 0
+	for i, k := range keys {
+		body := byte('p')
+		if h.Choose("alreadyMatching", 2) == 1 {
+			body = 'd'
+			before++
+		}
+		c11put(s, k, body, c11Past+int64(i))
+	}
+	capMax := h.IntRange("cap", 1, 2)
+	h.Assume(before <= capMax)
+	howMany := h.IntRange("howMany", 1, 3)
+	if h.Choose("indexBuiltBefore", 2) == 1 {
+		s.GetTreasuresByBeacon(BeaconTypeExpirationTime, IndexOrderAsc, 0, 0, nil, nil)
+	}
+	ops := []msgpackpatch.Op{{Kind: msgpackpatch.OpSet, Path: "s", Value: []byte{0xa1, 'd'}}}
+	s.BeginVigil()
+	_, _, err := s.PatchExpired(int32(howMany), ops, nil, &PatchFieldsMeta{SetExpiredAt: time.Unix(0, c11Future).UTC()}, nil, matches, int32(capMax))
+	s.CeaseVigil()
+	h.Assert(err == nil, "cap-batch-ok")
+	h.Assert(int(s.CountMatchingTreasures(matches)) <= capMax, "matches-never-exceed-cap")
+	h.Cover("end")
+}
+
 // ---------- persistent swamps (real chronicler V2 on the file-system model) ----------
 
 func vfPersist(h *verifrt.H, dir string, wi time.Duration, closed *int) Swamp {
